@@ -13,6 +13,10 @@ from .lib import LibMixin
 from .contract import SpecCtx, CLASS_INVARIANTS, Contract, P, ANY
 
 
+class StopPrefix(Exception):
+    """The contract under verification only states obligations about the path prefix up to a given call."""
+
+
 class Interp(LibMixin, CallMixin, StmtMixin, ExprMixin, InterpBase):
     # ------------------------------------------------------------------ obligation names
     def obl_name(self, kind, anchor):
@@ -139,11 +143,20 @@ class Interp(LibMixin, CallMixin, StmtMixin, ExprMixin, InterpBase):
             self.assume_invariant(p.cls, v, p.subclasses)
 
     def reassume_invariants(self):
-        """After a coarse havoc: invariants of the objects this path knows about hold again (visible states)."""
+        """After a coarse havoc the class invariants of the objects this path knows hold again (visible states);
+        they are re-assumed lazily, when such an object is next used (see touch_object)."""
         self.st.ghost["_inv_done"] = set()
         self.st.ghost["_tag_cache"] = {}
-        for key, (clsname, v, subclasses) in list(self.st.ghost.get("_inv_objs", [])):
-            self.assume_invariant(clsname, v, subclasses)
+        self.st.ghost["_inv_index"] = {key[1]: (clsname, v, sub) for key, (clsname, v, sub) in
+                                       self.st.ghost.get("_inv_objs", [])}
+
+    def touch_object(self, v):
+        idx = self.st.ghost.get("_inv_index")
+        if not idx:
+            return
+        ent = idx.get(str(v))
+        if ent is not None:
+            self.assume_invariant(*ent)
 
     def host_or_builtin_class(self, c):
         t = self.table
@@ -271,6 +284,8 @@ class Interp(LibMixin, CallMixin, StmtMixin, ExprMixin, InterpBase):
                 le = LogEntry(c.logged, [bound[n] for n in _param_order(fi)], {}, res, anchor)
                 le.pre = old          # heap at the time of the call
                 self.st.log.append(le)
+                if self.top is not None and getattr(self.top, "stop_after", None) == c.logged:
+                    raise StopPrefix()
             return res
         sg = c.signals[k - 1]
         if c.logged:
@@ -386,6 +401,8 @@ def verify_contract(index, table, contracts, c, axioms, timeout_ms=10000, max_pa
                 raise
             except ReturnEx as r:
                 exit_kind, value = "return", r.value
+            except StopPrefix:
+                exit_kind, value = "prefix", VNone
             except PyRaise as pr:
                 exit_kind, value, exc_origin = "raise", pr.exc, pr.origin
             except (BreakEx, ContinueEx):
@@ -394,7 +411,14 @@ def verify_contract(index, table, contracts, c, axioms, timeout_ms=10000, max_pa
             res.inlined |= it.inlined
             res.used_contracts |= it.used_contracts
             res.used_trusted |= it.used_trusted
-        res.exits[exit_kind] += 1
+        res.exits[exit_kind] = res.exits.get(exit_kind, 0) + 1
+        if exit_kind == "prefix":
+            for fn in c.exit_checks:
+                for (label, kind, goal, props) in fn(S_, exit_kind) or []:
+                    nm = it.obl_name(kind, label)
+                    tag_props(nm, props)
+                    ctx.oblige(nm, kind, goal, meta={"exit": exit_kind})
+            return
         if exit_kind == "return":
             S_.result = value
             for cl in c.ensures:
@@ -445,7 +469,7 @@ def verify_contract(index, table, contracts, c, axioms, timeout_ms=10000, max_pa
     for name, o in ex.obligations.items():
         o["props"] = sorted(prop_of.get(name, set(c.props)))
         res.obligations[name] = o
-    if res.status == "ok" and res.exits["return"] + res.exits["raise"] == 0:
+    if res.status == "ok" and sum(res.exits.values()) == 0:
         res.vacuous = True
         res.status = "undecided"
         res.reason = "vacuous: no feasible path reaches an exit (contradictory requires?)"
